@@ -31,6 +31,24 @@ theorem C01_IntFamily_outside_int64_stored_as_double (T : ColT) (hT : intFamily 
     toDb T (.int i) = .ok (.int i) ∧ store (aff T) (reprInt i) = some (.real (.ofInt i)) :=
   ⟨by rcases hT with rfl | rfl | rfl | rfl | rfl <;> rfl, store_int_outside T hT i h⟩
 
+/-- (7e1c6b2) a float given to an Int-family column: refused when it has a fractional part or is nan / inf
+    (`floatClass` reads that off the `repr` text), never truncated -/
+theorem C01_IntFamily_fractional_float_rejected (T : ColT) (hT : intFamily T) (t : Str)
+    (h : floatClass t = .fractional ∨ floatClass t = .nonfinite) : toDb T (.float (.lit t)) = .invalid := by
+  rcases h with h | h <;> rcases hT with rfl | rfl | rfl | rfl | rfl <;> simp [toDb, intV, intOfFloat, h]
+
+/-- … and an integral float (2.0, -0.0, 1e3) is normalised to that int on every read path -/
+theorem C01_IntFamily_integral_float_normalised (T : ColT) (hT : intFamily T) (t : Str) (n : Int)
+    (hc : floatClass t = .integral n) (h64 : int64 n = true) : readBack T (.float (.lit t)) = .ok (.int n) :=
+  readBack_int_of_float T hT t n hc h64
+
+example : floatClass [50, 46, 53] = .fractional := by decide                 -- "2.5"
+example : floatClass [50, 46, 48] = .integral 2 := by decide                 -- "2.0"
+example : floatClass [49, 46, 53, 101, 45, 48, 55] = .fractional := by decide -- "1.5e-07"
+example : floatClass [110, 97, 110] = .nonfinite := by decide                 -- "nan"
+example : toDb .int (.float (.lit [50, 46, 53])) = .invalid :=
+  C01_IntFamily_fractional_float_rejected _ (Or.inl rfl) _ (Or.inl (by decide))
+
 theorem C01_roundtrip_Bool (b : Bool) : readBack .bool (.bool b) = .ok (.bool b) := readBack_bool b
 
 /-- DateTimeCol and TimestampCol: every calendar-valid datetime, year 1..9999, µs 0..999999 -/
@@ -160,11 +178,11 @@ theorem C01_accepted_readable_partial (T : ColT) (x y : PyVal) (hw : wf x)
   cases T with
   | string => exact accepted_string x y hw h
   | unicode => exact accepted_unicode x y hw h
-  | int => exact accepted_int _ (Or.inl rfl) x y hk h
-  | tinyInt => exact accepted_int _ (Or.inr (Or.inl rfl)) x y hk h
-  | smallInt => exact accepted_int _ (Or.inr (Or.inr (Or.inl rfl))) x y hk h
-  | mediumInt => exact accepted_int _ (Or.inr (Or.inr (Or.inr (Or.inl rfl)))) x y hk h
-  | bigInt => exact accepted_int _ (Or.inr (Or.inr (Or.inr (Or.inr rfl)))) x y hk h
+  | int => exact accepted_int _ (Or.inl rfl) x y hf hk h
+  | tinyInt => exact accepted_int _ (Or.inr (Or.inl rfl)) x y hf hk h
+  | smallInt => exact accepted_int _ (Or.inr (Or.inr (Or.inl rfl))) x y hf hk h
+  | mediumInt => exact accepted_int _ (Or.inr (Or.inr (Or.inr (Or.inl rfl)))) x y hf hk h
+  | bigInt => exact accepted_int _ (Or.inr (Or.inr (Or.inr (Or.inr rfl)))) x y hf hk h
   | bool => exact accepted_bool x y h
   | float => exact accepted_float x y hf hk h
   | dateTime => exact accepted_dateTime _ (Or.inl rfl) x y hw hk h
